@@ -3,6 +3,7 @@ package props
 // C03 — field constructors and zap.Any deliver exactly the value they were given.
 
 import (
+	"errors"
 	"fmt"
 	"go/ast"
 	"go/parser"
@@ -13,6 +14,7 @@ import (
 	"reflect"
 	"sort"
 	"strings"
+	"sync/atomic"
 	"testing"
 	"time"
 
@@ -543,6 +545,7 @@ func TestKnownC03(t *testing.T) {
 
 func TestRegressC03(t *testing.T) {
 	c03ObjectValuesElements(t)
+	c03SharedErrorConcurrently(t)
 	// F4: Equals on inline-marshaler / uncomparable Stringer fields must not panic
 	a := zap.Inline(zap.DictObject(zap.Int("a", 1)))
 	if eq, p := equalsNoPanic(a, a); p != nil || !eq {
@@ -599,6 +602,55 @@ func c03ObjectValuesElements(t *testing.T) {
 			if vs[i].hits != 1 {
 				t.Fatalf("ObjectValues: element %d of the caller's slice was marshaled %d times (the marshaler ran on a copy)", i, vs[i].hits)
 			}
+		}
+	}
+}
+
+// c03PtrGroup is a pointer-typed error group (the shape of multi-error libraries) that two goroutines log at once.
+type c03PtrGroup struct {
+	msg  string
+	errs []error
+}
+
+func (g *c03PtrGroup) Error() string   { return g.msg }
+func (g *c03PtrGroup) Errors() []error { return g.errs }
+
+type c03GateErr struct {
+	calls   *atomic.Int32
+	entered chan struct{}
+	gate    chan struct{}
+}
+
+func (e c03GateErr) Error() string {
+	if e.calls.Add(1) == 1 {
+		close(e.entered)
+		<-e.gate
+	}
+	return "cause"
+}
+
+// Two goroutines encode the SAME error value at the same time (the harness parks the first inside a cause's Error
+// method): each encoder receives the complete value - message and every cause.
+func c03SharedErrorConcurrently(t *testing.T) {
+	ge := c03GateErr{calls: new(atomic.Int32), entered: make(chan struct{}), gate: make(chan struct{})}
+	grp := &c03PtrGroup{msg: "flush failed", errs: []error{ge, errors.New("second cause")}}
+	f := zap.Error(grp)
+	encA, encB := zapcore.NewMapObjectEncoder(), zapcore.NewMapObjectEncoder()
+	doneA, doneB := make(chan struct{}), make(chan struct{})
+	go func() { f.AddTo(encA); close(doneA) }()
+	<-ge.entered
+	go func() { f.AddTo(encB); close(doneB) }()
+	select { // bounded: lets an encoder that gives up on the value finish early; decides nothing otherwise
+	case <-doneB:
+	case <-time.After(50 * time.Millisecond):
+	}
+	close(ge.gate)
+	<-doneA
+	<-doneB
+	for name, enc := range map[string]*zapcore.MapObjectEncoder{"first": encA, "second": encB} {
+		causes, _ := enc.Fields["errorCauses"].([]interface{})
+		if enc.Fields["error"] != "flush failed" || len(causes) != 2 {
+			t.Fatalf("the %s of two goroutines encoding one error group at the same time received %v (want the message and both causes)", name, enc.Fields)
 		}
 	}
 }
